@@ -342,9 +342,20 @@ pub fn c05(x: &str, toks: &[GTok], out: &str, cfg: &Cfg, ctx: &mut Ctx) {
     let commentish = |t: &Tok| matches!(t.kind, Kind::Comment(_) | Kind::CompilerDirective | Kind::Conditional(_));
     let keep: Vec<usize> = (0..tx.len()).filter(|&i| !commentish(&tx[i])).collect();
     // (the grammar itself has a few productions with directive tokens: they are not mapped either)
-    let gen: Vec<&GTok> = toks.iter().filter(|t| !(t.text.starts_with("{$") || t.text.starts_with("//") || t.text.starts_with("(*") || (t.text.starts_with('{') && t.text.ends_with('}')))).collect();
-    let toks: Vec<GTok> = gen.into_iter().cloned().collect();
-    let toks = &toks[..];
+    let is_commentish_text = |t: &GTok| t.text.starts_with("{$") || t.text.starts_with("//") || t.text.starts_with("(*") || (t.text.starts_with('{') && t.text.ends_with('}'));
+    let mut gen: Vec<GTok> = vec![];
+    for t in toks {
+        if is_commentish_text(t) {
+            // the stack pops recorded on a dropped token move to the token before it
+            if let Some(last) = gen.last_mut() {
+                last.pop_k += t.pop_k;
+                last.pop_o += t.pop_o;
+            }
+        } else {
+            gen.push(t.clone());
+        }
+    }
+    let toks = &gen[..];
     if keep.len() != toks.len() + 1 {
         ctx.count("c05.skipped-token-mapping");
         return;
